@@ -13,6 +13,7 @@ package log
 //@
 //@ func ErrorAnyAttr
 //@   props C07 C06
+//@   arbitrary err
 //@   modifies nothing
 //@
 //@ func ErrorStringAttr
@@ -21,6 +22,8 @@ package log
 //@
 //@ func ErrorAttr
 //@   props C07 C06
+//@   arbitrary err
+//@   maypanic arbitrary
 //@   requires err != nil
 //@   modifies nothing
 //@
